@@ -265,6 +265,8 @@ GEN_FAULTS = {
     # the class itself where an instance is expected
     "class_object_as_argument": "Helper.plainV(Plain)",
     "class_object_as_branch": "Helper.plainV(if Helper.one(1) > 9 { Plain.init(1) } else { Plain })",
+    "class_object_under_bound": "Cmp.key(Meter)",
+    "class_object_under_bound_explicit": "Cmp.key<Meter>(Meter)",
     "class_object_in_generic_container": "Helper.plainV(Cell.of(Plain).content)",
     "operand_type": '(1 + "a")',
     "unknown_member": "Plain.init(1).nope",
